@@ -3770,3 +3770,41 @@ def r17_17(ctx, rule):
                  'the documented resolution for this command line is %r: other revisions are compared / other files are asked of git than the user named' % (exp,), fn)
     if n == 0:
         ctx.note('R17.17: resolve_diff_args could not be evaluated abstractly on this tree')
+
+
+def _r_key_filters_do_not_nest(ctx, rule):
+    """set_notebook_diff_ignores wraps the differ currently installed for a path in a key filter.  When that differ is itself a key filter (the same options stated
+    again -- every request of a service that states its options, every parse of a list-valued Ignore entry) the wrappers nest: each call makes diffing slower, and
+    after about a thousand diff_notebooks dies with RecursionError."""
+    from ..util import local_defs
+    from ..cfg import CFG, cond_guards
+    repo, cg = ctx.repo, ctx.cg
+    fid = 'nbdime.diffing.notebooks:set_notebook_diff_ignores'
+    fn = repo.func(fid)
+    defs = local_defs(fn)
+    calls = [c for c in calls_in(fn, nested=False) if any(t == ('func', 'nbdime.diffing.notebooks:diff_ignore_keys') for t in cg.resolve(c.func, fn))]
+    if not calls:
+        raise AnalysisError('set_notebook_diff_ignores: diff_ignore_keys call not found')
+    dk = repo.func('nbdime.diffing.notebooks:diff_ignore_keys')
+    # the wrapper must be recognisable: diff_ignore_keys marks what it returns (an attribute stored on the closure) or returns an instance of a class
+    inner_fns = [n for n in dk.body if isinstance(n, ast.FunctionDef)]
+    marks = {t.attr for n in walk_no_nested(dk) if isinstance(n, ast.Assign) for t in n.targets if isinstance(t, ast.Attribute) and isinstance(t.value, ast.Name) and
+             t.value.id in {f.name for f in inner_fns}}
+    g = CFG(fn)
+    for c in calls:
+        inner = c.args[0] if c.args else None
+        direct = isinstance(inner, ast.Subscript) and (dotted(inner.value) or '').endswith('notebook_differs')
+        src = [inner] + ([v for v, k, st in defs.get(inner.id, [])] if isinstance(inner, ast.Name) else [])
+        reads_table = any(isinstance(x, ast.Subscript) and (dotted(x.value) or '').endswith('notebook_differs') for e in src if e is not None for x in ast.walk(e))
+        unwraps = bool(marks) and any(isinstance(x, ast.Call) and dotted(x.func) in ('getattr', 'hasattr') and len(x.args) >= 2 and const_val(x.args[1]) in marks or
+                                      isinstance(x, ast.Attribute) and x.attr in marks for x in ast.walk(fn))
+        ok = not reads_table or (unwraps and not direct)
+        ctx.inst(rule, fid, repo.norm(c), ok,
+                 'a differ that is already a key filter is unwrapped (its keys are merged) before it is filtered again' if ok else
+                 'the key filter is put around whatever is installed for the path, also around an earlier key filter: stating the same options again nests one more '
+                 'wrapper each time (slower diffs, RecursionError after about a thousand calls) -- the N-th request of a long-running process fails on valid notebooks', c)
+
+
+@extra('C12', 'R12.14', 'stating the same ignore options again does not change the differ table: a key filter is never wrapped around another key filter', 1)
+def r12_14(ctx, rule):
+    _r_key_filters_do_not_nest(ctx, rule)
